@@ -70,6 +70,7 @@ Proof. exact append_unlocked_refuted. Qed.
 Theorem C18_shape_facts :
   servehttp_lock_then_defer_unlock = true /\ servehttp_state_before_lock = [] /\
   servehttp_unlock_only_deferred = true /\ servehttp_no_go_stmt = true /\
+  interpreter_lock_used_outside_servehttp = [] /\
   linter_error_locks_first = true /\ linter_errors_appended_outside_error = [].
 Proof. exact shape_facts. Qed.
 
